@@ -117,5 +117,10 @@ theorem c11_cancel_refunds_unreleased (x x' : SB) (now : Int) (r s : Addr) (hi :
 example : calcAmountToClaim 1700000010000000000 1700000105000000000 1700000005000000000 100 1 = (5, 95) := by decide
 example : calcDuration 100 1 = 100 := by decide
 
+/-- the minimum funded duration of the model is the source's (ValidateBasic and message server) -/
+theorem c11_limits_from_source :
+    (AL.find? Facts.limits "stream.msgs.duration.<").map Int.ofNat = some minStreamDuration ∧
+    (AL.find? Facts.limits "stream.msg_server.duration.<").map Int.ofNat = some minStreamDuration := by decide
+
 end C11
 end Mainchain
